@@ -21,6 +21,7 @@ type DivCase struct {
 	Nb       int        `json:"nb"`       // number of consecutive divisions
 	OutSame  bool       `json:"outSame"`  // output poly allocated at the input level (else at level-Nb)
 	InPlace  bool       `json:"inPlace"`  // output == input
+	Prior    bool       `json:"prior,omitempty"` // polys live at the maximum level and went through a (checked) call at the maximum level before
 	Coeffs   []CoefSpec `json:"coeffs"`
 	DirtSeed uint64     `json:"dirt"`
 }
@@ -66,10 +67,14 @@ func genDiv(t *rapid.T) DivCase {
 	if c.InPlace || c.Nb == 0 {
 		c.OutSame = true
 	}
+	c.Prior = rapid.IntRange(0, 2).Draw(t, "prior") == 0
 	c.Coeffs = genCoefs(t, []string{"uni", "small", "mul", "half", "nest", "nest", "edge"})
 	c.DirtSeed = rapid.Uint64().Draw(t, "dirt")
 	return c
 }
+
+// divPolys are the polynomials of a case with a prior life: all at the maximum level.
+type divPolys struct{ p0, buff, p1 ring.Poly }
 
 func runDiv(c DivCase, rec *h.Rec) error {
 	rFull, _, err := c.Chain.rings()
@@ -78,6 +83,28 @@ func runDiv(c DivCase, rec *h.Rec) error {
 	}
 	if c.Level < 1 || c.Level >= len(c.Chain.Q) || c.Nb < 0 || c.Nb > c.Level || (!c.Many && c.Nb != 1) {
 		return nil // outside the accepted domain (hand-edited replay)
+	}
+	if !c.Prior {
+		return divRound(c, rec, nil, "", true)
+	}
+	st := &divPolys{p0: rFull.NewPoly(), buff: rFull.NewPoly(), p1: rFull.NewPoly()}
+	dirty(st.p0, c.Chain.Q, c.DirtSeed+2)
+	dirty(st.buff, c.Chain.Q, c.DirtSeed)
+	dirty(st.p1, c.Chain.Q, c.DirtSeed+1)
+	first := c
+	first.Level = len(c.Chain.Q) - 1
+	first.Coeffs = []CoefSpec{{Kind: "uni", U: c.DirtSeed}}
+	if err := divRound(first, rec, st, ":first-use", false); err != nil {
+		return err
+	}
+	return divRound(c, rec, st, "", true)
+}
+
+// divRound performs and checks one call. With st != nil the maximum-level polynomials of st are (re-)used.
+func divRound(c DivCase, rec *h.Rec, st *divPolys, tag string, record bool) error {
+	rFull, _, err := c.Chain.rings()
+	if err != nil {
+		return h.Failf("C02:setup:NewRing", "%v", err)
 	}
 	name := c.name()
 	r := rFull.AtLevel(c.Level)
@@ -109,21 +136,33 @@ func runDiv(c DivCase, rec *h.Rec) error {
 	Qout := c.Chain.Q[:outLevel+1]
 	wantRNS := h.ToRNS(want, Qout)
 
-	p0 := r.NewPoly()
-	setPoly(p0, x, Qin)
-	if c.NTT {
-		r.NTT(p0, p0)
-	}
-	buff := r.NewPoly()
-	dirty(buff, Qin, c.DirtSeed)
-	p1 := p0
-	if !c.InPlace {
-		if c.OutSame {
-			p1 = r.NewPoly()
-		} else {
-			p1 = rFull.AtLevel(outLevel).NewPoly()
+	var p0, buff, p1 ring.Poly
+	if st != nil {
+		p0, buff, p1 = st.p0, st.buff, st.p1
+		if c.InPlace {
+			p1 = p0
 		}
-		dirty(p1, Qin, c.DirtSeed+1)
+		setPoly(p0, x, Qin)
+		if c.NTT {
+			r.NTT(p0, p0)
+		}
+	} else {
+		p0 = r.NewPoly()
+		setPoly(p0, x, Qin)
+		if c.NTT {
+			r.NTT(p0, p0)
+		}
+		buff = r.NewPoly()
+		dirty(buff, Qin, c.DirtSeed)
+		p1 = p0
+		if !c.InPlace {
+			if c.OutSame {
+				p1 = r.NewPoly()
+			} else {
+				p1 = rFull.AtLevel(outLevel).NewPoly()
+			}
+			dirty(p1, Qin, c.DirtSeed+1)
+		}
 	}
 
 	switch {
@@ -226,11 +265,11 @@ func runDiv(c DivCase, rec *h.Rec) error {
 				}
 				return h.Failf(key, "%s", msg)
 			}
-			return h.Failf("C02:"+name+":quotient"+alias, "%s", msg)
+			return h.Failf("C02:"+name+":quotient"+alias+tag, "%s", msg)
 		}
 		for i, q := range Qout {
 			if got := res.Coeffs[i][j]; got >= q {
-				return h.Failf("C02:"+name+":range"+alias,
+				return h.Failf("C02:"+name+":range"+alias+tag,
 					"%s nb=%d level=%d: coefficient %d limb %d: result %d is congruent to the quotient but not reduced (q=%d)",
 					name, c.Nb, c.Level, j, i, got, q)
 			}
@@ -243,7 +282,11 @@ func runDiv(c DivCase, rec *h.Rec) error {
 		rec.Classf("known=%s:quotient-minus-one%s", name, lazyClass)
 	}
 
+	if !record {
+		return nil
+	}
 	rec.Classf("op=%s", name)
+	rec.Classf("prior=%v", c.Prior)
 	rec.Classf("nb=%d", c.Nb)
 	rec.Classf("level=%s", lvlClass(c.Level, len(c.Chain.Q)-1))
 	rec.Classf("sizes=%s", sizeClass(Qin))
@@ -255,8 +298,8 @@ func runDiv(c DivCase, rec *h.Rec) error {
 	}
 	// non-trivial: quotient-boundary coefficients and a non-zero result, and the division really happened
 	if hasBoundary(c.Coeffs) && nonzero && c.Nb >= 1 {
-		rec.NonTrivial(fmt.Sprintf("%s|N=%d|ci=%v|nb=%d|level=%d/%d|%s|%s|out=%v|inpl=%v", name, N, c.Chain.CI, c.Nb, c.Level, len(c.Chain.Q)-1,
-			sizeClass(Qin), kindsOf(c.Coeffs), c.OutSame, c.InPlace))
+		rec.NonTrivial(fmt.Sprintf("%s|N=%d|ci=%v|nb=%d|level=%d/%d|%s|%s|out=%v|inpl=%v|prior=%v", name, N, c.Chain.CI, c.Nb, c.Level, len(c.Chain.Q)-1,
+			sizeClass(Qin), kindsOf(c.Coeffs), c.OutSame, c.InPlace, c.Prior))
 	}
 	return nil
 }
